@@ -153,6 +153,8 @@ def name_pool(thorough, seed):
     names += ["a b c", "a b", "a+b", "a-b", "a_b", "a  b", "x:y", "my|special$column!", "d$in^df", "wacky name!"]
     names += ["é", "日本語", "😀", "a b", "ß", "x́", "​", "naïve café", "Ω≈ç√", "ＡＢ"]
     names += ["½", "x²", "aǌ", "ſ"]
+    # backslash escapes inside the quotes: an escaped backtick, an escaped bracket / backslash at the end
+    names += ["b\\`c", "\\`", "a\\`", "\\`a", "a\\(", "x\\)", "a\\[", "a\\\\", "a\\\\b\\`"]
     names += ["lambda", "for", "None", "class", "1", "1a", "2.5", "0", "00", "_", "__a__", "a.b", "a.b.c", ".a"]
     names += ['"', "'", '"a"', "'a'", "a\"b'c", "(a)", "[0]", "{a}", "f(x)", "a}", "{", "}}", "((", "\\", "\\\\", "a\\b", "\\n", "%in%", "~", "a ~ b"]
     if thorough:
@@ -164,9 +166,22 @@ def name_pool(thorough, seed):
     out = []
     for n in names:
         # the empty string is not treated as a column name (a quoted section must be non-empty)
-        if n and "`" not in n and n != "z" and n not in out:
+        if n and _backticks_escaped(n) and n != "z" and n not in out:
             out.append(n)
     return out
+
+
+def _backticks_escaped(n):
+    """Every backtick of the name is preceded by an odd number of backslashes (so that the name can
+    be written between backticks at all)."""
+    for m in re.finditer("`", n):
+        k = m.start()
+        j = k
+        while j > 0 and n[j - 1] == "\\":
+            j -= 1
+        if (k - j) % 2 == 0:
+            return False
+    return True
 
 
 def name_class(n):
@@ -178,6 +193,8 @@ def name_class(n):
         return "empty-name"
     if n.endswith("\\") and (len(n) - len(n.rstrip("\\"))) % 2 == 1:
         return "name-ending-in-backslash"
+    if "`" in n:
+        return "name-with-escaped-backtick"
     if keyword.iskeyword(n):
         return "python-keyword"
     if any(re.match(r"\w", c) and not ("_" + c).isidentifier() for c in n):
@@ -233,6 +250,8 @@ def w_names(args):
             i += 1
             if i % nshards != shard:
                 continue
+            if "`" in n and cname in ("brace", "call"):
+                continue  # names holding a backtick are outside the stated quantifier; inside fragments only the tokenizer contract is checked (python-verbatim)
             formula = tmpl.format(n=n)
             acc.case((cname, n), True, sample={"context": cname, "name": n, "formula": formula})
             out = eval_formula(formula, [n])
@@ -479,6 +498,17 @@ def verbatim_fragments():
     for lit in ('"\'"', "'\"'", '"it\'s"', '"\\""', "'\\''"):
         yield f"f({lit})", f"f({lit})", "quote-in-string-literal"
         yield "{" + f"a == {lit}" + "}", f"a == {lit}", "quote-in-string-literal"
+    # backslash-escaped brackets, quotes and backticks inside string literals (regular expressions...)
+    escaped = ["\\" + c for c in "()[]{}`"] + ["\\(\\d\\)", "a\\)b", "\\[x\\]", "\\(\\[", "x\\}y\\{"]
+    for p in escaped:
+        for lit in ('r"' + p + '"', "r'" + p + "'", '"' + p + '"', "'" + p + "'"):
+            for call in (f"f({lit})", f"s.str.contains({lit})", f"f(a, k={lit})[0]", f"f(s, {lit}, b)"):
+                yield call, call, "escaped-in-string-literal"
+            yield "{" + f"a == {lit}" + "}", f"a == {lit}", "escaped-in-string-literal"
+            yield "{" + f"s.str.contains({lit})" + "}", f"s.str.contains({lit})", "escaped-in-string-literal"
+    for lit in ('r"\\""', "r'\\''", '"a\\"b"', "'\\''", '"\\"\\)"'):
+        yield f"f({lit})", f"f({lit})", "escaped-quote-in-string-literal"
+        yield "{" + f"a == {lit}" + "}", f"a == {lit}", "escaped-quote-in-string-literal"
     # brackets and operators as Python syntax
     for code in ["a[0]", "a[1:2]", "a[(1, 2)]", "f(a)[g(b)]", "f(a)(b)", "a.g(b)[c]", "f((a, (b, c)))", "f([a, [b]])", "{1: a}[1]", "f({1, 2})", "a in {1, 2}", "{'k': a}['k']", "f(a)[{1: 0}[1]]", "a | b", "a ^ b", "~a", "a % b", "-a", "a - -b", "a ** -1", "a @ b", "a if b else c", "a[::2]", "a < b", "a // b", "a >> 2"]:
         if re.match(r"[\w]+\(", code) and code.endswith((")", "]")) and "{" not in code:
@@ -486,9 +516,28 @@ def verbatim_fragments():
         yield "{" + code + "}", code, "python-syntax" if "{" not in code else "nested-brace"
 
 
+TOKEN_REPRO = '''from formulaic.parser.algos.tokenize import tokenize
+formula, text = {formula!r}, {text!r}
+try:
+    toks = [(t.token, t.kind.value) for t in tokenize(formula)]
+except Exception as e:
+    toks = (type(e).__name__, str(e)[:120])
+assert toks == [(text, "python")], (formula, toks)     # one token holding exactly the fragment text
+'''
+
+
 def w_verbatim(args):
     acc = Acc()
     parser = C1.get_parser(False)
+    # fragments that quote a name holding an escaped backtick: only the tokenizer's contract (one
+    # token with exactly the fragment text) is judged here
+    for name in ("b\\`c", "\\`", "a\\`"):
+        for formula, text in (("{`%s` + 1}" % name, "`%s` + 1" % name), ("f(`%s`)" % name, "f(`%s`)" % name), ("f(`%s`, x)[0]" % name, "f(`%s`, x)[0]" % name), ("{`%s` - `b`}" % name, "`%s` - `b`" % name)):
+            toks, err, _ = lib_tokens(formula)
+            acc.case(("token", formula), True, sample={"fragment": formula})
+            if err is not None or [(t[0], t[1]) for t in toks] != [(text, "python")]:
+                w = {"fragment": formula, "observed": [list(t[:2]) for t in toks] if err is None else repr(err)[:200], "code": TOKEN_REPRO.format(formula=formula, text=text)}
+                acc.fail("C15.python.verbatim", "escaped-backtick-name-in-fragment/token-text", w, f"tokenize({formula!r}) should give the single python token {text!r}: {toks} {err!r}")
     for formula, code, kind in verbatim_fragments():
         if not _same_ast(code, code):
             raise AssertionError(f"driver bug: {code!r} is not valid Python")
@@ -497,11 +546,18 @@ def w_verbatim(args):
         ok = False
         if got[0] == "ok" and len(got[1]) == 1 and len(got[1][0]) == 1 and got[1][0][0][0] == "python":
             ok = _same_ast(got[1][0][0][1], code)
+        if ok:
+            # the tokenizer itself: one token with exactly the fragment text
+            toks, err, _ = lib_tokens(formula)
+            if err is not None or [(t[0], t[1]) for t in toks] != [(code, "python")]:
+                w = {"fragment": formula, "python": code, "observed": [list(t[:2]) for t in toks], "code": TOKEN_REPRO.format(formula=formula, text=code)}
+                acc.fail("C15.python.verbatim", kind + "/token-text", w, f"tokenize({formula!r}) should give the single python token {code!r}: {toks}")
+            continue
         if not ok:
             # also tolerate: the same, embedded in a formula with an intercept-free sum
             cause = kind
             inner = code
-            if kind == "string-literal" or kind == "quote-in-string-literal":
+            if kind in ("string-literal", "quote-in-string-literal"):
                 m = re.search(r"[\"'](.*)[\"']", inner)
                 payload = m.group(1) if m else ""
                 if any(c in payload for c in "()[]{}"):
@@ -911,7 +967,7 @@ def run_bounded(ctx):
             bound=f"{len(name_pool(th, seed))} names",
         ),
         "python-reformatting": ctx.bounded("python-reformatting", rule="57 call/brace fragments x respellings with identical AST (token spacing, tabs, quote style, redundant parentheses, trailing comma, newline inside brackets; blank / tab / LF / CRLF / LF+indent immediately inside the quoting brace or call bracket, leading and trailing): equal factors, equal formulas, one term when summed", exhaustive=False, bound="see rule"),
-        "python-verbatim": ctx.bounded("python-verbatim", rule="valid Python fragments containing operator characters, brackets and quotes (inside string literals and as Python syntax): one term, one python factor with the fragment's AST", exhaustive=False, bound="~230 fragments"),
+        "python-verbatim": ctx.bounded("python-verbatim", rule="valid Python fragments containing operator characters, brackets and quotes (inside string literals, also backslash-escaped in raw and plain literals, and as Python syntax): one python token with exactly the fragment text, one term, one python factor with the fragment's AST; fragments quoting a name with an escaped backtick: one token", exhaustive=False, bound="~560 fragments"),
         "string-tokens": ctx.bounded("string-tokens", rule="string literals in both quote styles holding brackets, operators, the other quote, backticks: one verbatim value token, in 4 positions", exhaustive=False, bound="26 payloads"),
         "token-spans": ctx.bounded(
             "token-spans",
